@@ -6,8 +6,10 @@ itself re-raises what escapes and removes the trace function), differential agai
 then every dynamic seam call (plugin callbacks, delivery, source lookup) failed once with an
 Exception and with a non-Exception BaseException.
 """
+import gc
 import sys
 import threading
+import types
 
 from .. import rig, progs
 from ..drive import run_installed
@@ -20,9 +22,15 @@ RULE = ('programs: corpus (calls, recursion, exceptions, generators, iterators, 
         'executable line and function; kinds: snapshot(all frames), watches{ok,failing,raising BaseException}, snapshot+log, log only, '
         'metric, span, capture, condition{true,false,failing,BaseException}, malformed{unparsable counts, nameless method span}, pairs; '
         'faults: each of the N seam calls of the rich configuration raises once, x {Exception, BaseException}; a case is non-trivial when '
-        'the tracepoint actually fired (or the fault was actually reached)')
+        'the tracepoint actually fired (or the fault was actually reached); every run is made with the cyclic collector off and also compares which '
+        'frames of the program are still alive afterwards against the reference tracer')
 ASSUMPTIONS = ['expressions are side-effect free; the fault model is seam-level: every injected failure is realisable by a concrete plugin / object / environment',
-               'program output = what the program writes through out(); agent log records are not program output']
+               'program output = what the program writes through out(); agent log records are not program output',
+               'object lifetimes: release at function exit (reference counting, collector off) is compared; release at `del`/rebinding inside a '
+               'frame whose locals were read may be delayed until the next read or the frame\'s exit (CPython 3.12 keeps the f_locals snapshot on the '
+               'frame, for every tool that reads locals) and is not compared; the reference for frame lifetimes is a tracer that reads the locals at the '
+               'tracepoint location and keeps nothing',
+               'the program does not run within a handful of frames of the recursion limit (any Python-level trace function needs stack of its own)']
 
 KINDS = ['snapshot', 'watches', 'snap_log', 'log_only', 'metric', 'span', 'capture', 'cond_true', 'cond_false', 'cond_fail', 'cond_base',
          'bad_counts', 'nameless_method_span', 'pair_snap_span', 'pair_log_metric']
@@ -227,8 +235,9 @@ def run_with_agent(name, triggers, journal=None, push_fail_at=None, push_exc=Non
     hook = threading.excepthook
     threading.excepthook = lambda a: None   # a thread dying of an agent exception shows up in the differential, not on stderr
     try:
-        with rig.VirtualClock():
+        with rig.VirtualClock(), NoCollector():
             run = run_installed(handler, lo.ns['main'])
+            frames = live_frames(lo.path)
     finally:
         threading.Thread.run = real_run
         threading.excepthook = hook
@@ -236,9 +245,75 @@ def run_with_agent(name, triggers, journal=None, push_fail_at=None, push_exc=Non
     after = getattr(run.trace_after, '__self__', None) is handler
     obs = observe(lo, run, None)
     obs['trace_after'] = after
+    obs['frames'] = frames
     obs['thread_marks'] = marks
     obs['fired'] = len(agent.snapshots) + len([e for e in j.events if e[0] in ('log', 'metric', 'span_open')])
     return obs, agent, j
+
+
+class NoCollector:
+    """Runs the program with the cyclic collector off (as applications may): whatever outlives its last reference then
+    does so because of a reference cycle, deterministically."""
+    frozen = False
+
+    def __enter__(self):
+        if not NoCollector.frozen:
+            gc.collect()
+            gc.freeze()          # everything that exists so far is out of the picture (and later collections are cheap)
+            NoCollector.frozen = True
+        gc.collect()
+        self.was = gc.isenabled()
+        gc.disable()
+
+    def __exit__(self, *a):
+        if self.was:
+            gc.enable()
+
+
+def live_frames(path):
+    """Frame objects of the program that are still alive (sorted function names)."""
+    return sorted(o.f_code.co_name for o in gc.get_objects() if isinstance(o, types.FrameType) and o.f_code.co_filename == path)
+
+
+class Passive:
+    """Reference tracer: traces every frame like the agent and reads the paused frame's variables at the tracepoint's
+    location - the one thing any implementation of a tracepoint has to do - and keeps nothing. (In CPython 3.12 reading
+    frame.f_locals leaves a snapshot dict on the frame until the next read: a local that is deleted later, such as the
+    name bound by `except ... as e`, stays referenced from it - for *every* tool that reads locals.)"""
+
+    def __init__(self, path, loc):
+        self.file = path
+        self.loc = loc
+
+    def trace_call(self, frame, event, arg):
+        code = frame.f_code
+        if code.co_filename == self.file:
+            if (self.loc[0] == 'line' and event == 'line' and frame.f_lineno == self.loc[1]) or \
+                    (self.loc[0] == 'fn' and event == 'call' and code.co_name == self.loc[1]):
+                frame.f_locals
+        return self.trace_call
+
+
+_PASSIVE = {}
+
+
+def passive_frames(name, loc):
+    """The program's frames that outlive the run under the reference tracer (tracebacks of stored or propagating
+    exceptions, suspended generators the program keeps, the f_locals snapshot)."""
+    key = (name, tuple(loc))
+    if key not in _PASSIVE:
+        lo = progs.load(name)
+        inject(lo)
+        hook = threading.excepthook
+        threading.excepthook = lambda a: None
+        try:
+            with NoCollector():
+                run = run_installed(Passive(lo.path, tuple(loc)), lo.ns['main'])
+                _PASSIVE[key] = live_frames(lo.path)
+        finally:
+            threading.excepthook = hook
+        del run
+    return _PASSIVE[key]
 
 
 def compare(ctx, base, obs, label, case, feat):
@@ -251,6 +326,16 @@ def compare(ctx, base, obs, label, case, feat):
     if not obs['trace_after']:
         ctx.violation(f'C01/tracing-switched-off/{feat}', f'{label}: after the program sys.gettrace() is no longer the agent\'s function', case)
         return False
+    if 'frames' in obs:
+        ref = passive_frames(case['prog'], case['loc'])
+        extra = list(obs['frames'])
+        for f in ref:
+            if f in extra:
+                extra.remove(f)
+        if extra:
+            ctx.violation(f'C01/frames-kept-alive/{feat}', f'{label}: with the cyclic collector off, frames of {sorted(set(extra))} (and every object their '
+                          f'variables name) are still alive after the program ended; under a tracer that reads the locals there and keeps nothing: {ref}', case)
+            return False
     bad = [t for t, ok in obs['thread_marks'].items() if not ok]
     if bad:
         ctx.violation(f'C01/tracing-switched-off-in-thread/{feat}', f'{label}: threads {bad} ended without the agent as their trace function', case)
